@@ -531,6 +531,11 @@ func getTypeFromEnv(runInfo *runInfoStruct, typeStruct *ast.TypeStruct) reflect.
 func makeValue(t reflect.Type) (reflect.Value, error) {
 	switch t.Kind() {
 	case reflect.Chan:
+		if t.ChanDir() != reflect.BothDir {
+			// reflect.MakeChan panics for a receive-only / send-only channel type (time.Ticker.C):
+			// make the channel bidirectional and hand it out under the wanted type
+			return reflect.MakeChan(reflect.ChanOf(reflect.BothDir, t.Elem()), 0).Convert(t), nil
+		}
 		return reflect.MakeChan(t, 0), nil
 	case reflect.Func:
 		return reflect.MakeFunc(t, nil), nil
